@@ -1791,16 +1791,21 @@ pub fn c04(ix: &Index) -> Vec<Viol> {
     out
 }
 
-pub fn c08(ix: &Index) -> Vec<Viol> {
-    let mut out = Vec::new();
-    let h = ix.h;
-    let leak_shape = h.spans.iter().enumerate().any(|(u, r)| {
+/// known-finding shape: a unit whose commit or drop can be consumed before its start
+fn start_after_commit_possible(h: &Hist) -> bool {
+    h.spans.iter().enumerate().any(|(u, r)| {
         r.is_root
             && !r.noop
             && r.items[0].sampled
             && (inconsistent_cut_possible(h, u, None)
                 || (h.cancelable && r.cancel_t.iter().zip(r.cancel_vt.iter()).any(|(c, cv)| *cv != r.create_vt && cycle_spans(h, r.create_t.1, c.0))))
-    });
+    })
+}
+
+pub fn c08(ix: &Index) -> Vec<Viol> {
+    let mut out = Vec::new();
+    let h = ix.h;
+    let leak_shape = start_after_commit_possible(h);
     let overflow = fill_involved(h);
     for s in &h.stats {
         if s.final_ {
@@ -2111,7 +2116,7 @@ pub fn c09(ix: &Index) -> Vec<Viol> {
     // retained state returns to zero unless a finish/cancel signal was legitimately lost
     if unit_commit_lost.is_empty() {
         for s in h.stats.iter().filter(|s| s.final_) {
-            let leak_shape = c08(ix).iter().any(|x| x.sig.ends_with("start-after-commit"));
+            let leak_shape = start_after_commit_possible(h);
             if (s.s.active_collectors != 0 || s.s.buffered_span_sets != 0) && !leak_shape && unit_unstarted.is_empty() {
                 out.push(v("C09", "state-retained-after-recovery", format!("after recovery and quiescence the collector still holds {:?}", s.s)));
             }
